@@ -34,6 +34,7 @@ MUST_REACH = {
     "hist_never": 200, "hist_header_only": 200, "parsed_canonical_identical": 200, "failed_parse_forwardable": 20,
     "noncanonical_zc_message_equal": 20, "eager_parsed": 100, "mut_truncated": 50, "mut_extended": 20, "mut_flipped": 50,
     "mut_rezero": 20, "templates_covered": 481, "hist_take": 200, "zero_runs_at_chunk_boundary": 20,
+    "datagrams_custom_template": 200,
 }
 
 _ser = UDPMessageSerializer()
@@ -88,6 +89,34 @@ def split_datagram(b: bytes):
     return b[:6], b[6:end], b[end:]
 
 
+_TD = gen_msg.DEFAULT_TEMPLATE_DICT
+
+
+class custom_config:
+    """The same check with the codec objects built on a caller-supplied template, next to the stock ones in one process."""
+    _objs = None
+
+    def __enter__(self):
+        global _ser, _lazy, _eager, _TD
+        if custom_config._objs is None:
+            from ..custom_template import custom_template_file
+            from hippolyzer.lib.base.message.template_dict import TemplateDictionary
+            td = TemplateDictionary(message_template=custom_template_file())
+            ser = UDPMessageSerializer(message_template=custom_template_file())
+            lazy = UDPMessageDeserializer()
+            lazy.template_dict = td
+            eager = UDPMessageDeserializer(settings=_es)
+            eager.template_dict = td
+            custom_config._objs = (ser, lazy, eager, td)
+        self.saved = (_ser, _lazy, _eager, _TD)
+        _ser, _lazy, _eager, _TD = custom_config._objs
+        return _TD
+
+    def __exit__(self, *a):
+        global _ser, _lazy, _eager, _TD
+        _ser, _lazy, _eager, _TD = self.saved
+
+
 def known_expected(b: bytes, name: str):
     """Datagrams that the two *known* normalisations (and nothing else) would produce from b:
     {"trailing": ..., "nul": ..., "both": ...} (entries only where the mechanism applies)."""
@@ -97,7 +126,7 @@ def known_expected(b: bytes, name: str):
     head, body, tail = parts
     zc = bool(b[0] & 0x80)
     expanded = wire.ref_zero_expand(body) if zc else body
-    tmpl = gen_msg.DEFAULT_TEMPLATE_DICT[name]
+    tmpl = _TD[name]
     try:
         walked, end = wire.ref_walk_body(tmpl, expanded, b[5])
     except ValueError:
@@ -291,7 +320,7 @@ def _classify_diff(b, out, name):
     eo = wire.ref_zero_expand(po[1]) if zc else po[1]
     if eb == eo:
         return "zerocoding-only"
-    tmpl = gen_msg.DEFAULT_TEMPLATE_DICT[name]
+    tmpl = _TD[name]
     try:
         wb, endb = wire.ref_walk_body(tmpl, eb, b[5])
         wo, endo = wire.ref_walk_body(tmpl, eo, out[5])
@@ -465,8 +494,20 @@ def run(ctx):
             if s2 is not None:
                 ctx.count("mut_nul_variants")
                 check_datagram(ctx, wire.ref_encode(tmpl, s2), {"kind": "text-nul-variant"})
+            if k % 2 == 0:
+                # a proxy / client configured with its own message template: same names, other wire types
+                with custom_config() as td:
+                    ctmpl = td[tmpl.name]
+                    cspec = gen_msg.limit_for_zerocode(rng, ctmpl, {"max_var_len": 600, "small_block": 12, "p_extra": 0.15})
+                    cb = wire.ref_encode(ctmpl, cspec)
+                    check_datagram(ctx, cb, {"kind": "generated", "template_config": "custom"})
+                    ctx.count("datagrams_custom_template")
+                check_datagram(ctx, b, {"kind": "generated"})
 
 
 def replay(ctx, w):
-    if "datagram" in w:
+    if "datagram" in w and w.get("template_config") == "custom":
+        with custom_config():
+            check_datagram(ctx, w["datagram"], {"kind": "replay", "template_config": "custom"})
+    elif "datagram" in w:
         check_datagram(ctx, w["datagram"], {"kind": "replay"})
